@@ -299,7 +299,7 @@ var _ = strings.Join
 // the hand-over.
 func TestUpdatesDuringReload(t *testing.T) {
 	run := vf.Cur()
-	sub := run.Sub("updates-during-reload", "real app on the real clock holding 4000 other firing alerts; 12 times per case the (unchanged) configuration is reloaded while another goroutine submits NEW alerts (each its own label set) back to back for exactly the duration of the reload; after each reload every one of them must be in its group within 3 s (an update that fell between the new dispatcher's snapshot and its subscription never arrives); non-trivial = >=3 alerts were submitted while a reload was in progress; distinct by (case)", 2)
+	sub := run.Sub("updates-during-reload", "real app on the real clock holding 4000 other firing alerts (800 in the race pass); 12 times per case (5 in the race pass) the (unchanged) configuration is reloaded while another goroutine submits NEW alerts (each its own label set) back to back for exactly the duration of the reload; after each reload every one of them must be in its group within 3 s (an update that fell between the new dispatcher's snapshot and its subscription never arrives); non-trivial = >=3 alerts were submitted while a reload was in progress; distinct by (case)", 2)
 	n := run.N(3, 60)
 	for i := 0; i < n; i++ {
 		gw, gi, ri := time.Hour, time.Hour, 4*time.Hour
@@ -313,7 +313,11 @@ func TestUpdatesDuringReload(t *testing.T) {
 		}
 		far := time.Now().Add(3 * time.Hour)
 		var batch []sim.PostableAlert
-		for k := 0; k < 4000; k++ {
+		fill := 4000
+		if vf.RaceEnabled {
+			fill = 800 // the instrumented binary is several times slower; the window scales with the store
+		}
+		for k := 0; k < fill; k++ {
 			batch = append(batch, sim.PostableAlert{Labels: model.Labels{"alertname": fmt.Sprintf("F%d", k%50), "instance": fmt.Sprint(k)}, EndsAt: &far})
 			if len(batch) == 500 {
 				in.PostAlerts(batch...)
@@ -322,7 +326,11 @@ func TestUpdatesDuringReload(t *testing.T) {
 		}
 		var during atomic.Int64
 		bad := false
-		for k := 0; k < 12 && !bad; k++ {
+		reloads := 12
+		if vf.RaceEnabled {
+			reloads = 5
+		}
+		for k := 0; k < reloads && !bad; k++ {
 			// new alerts (each its own label set, so none can hide the loss of another) are submitted back to
 			// back only WHILE the reload runs
 			var stopFlag atomic.Bool
